@@ -120,6 +120,13 @@ impl MqttState {
         }
         self.outgoing_rel.clear();
 
+        // a publish parked on a packet id collision was accepted but never sent: it has to be
+        // carried over as well. Left in `collision` it would block the event loop for good when
+        // the next session does not resume (nothing holds the colliding id any more)
+        if let Some(publish) = self.collision.take() {
+            pending.push(Request::Publish(publish));
+        }
+
         // remove packet ids of incoming qos2 publishes
         self.incoming_pub.clear();
 
